@@ -389,6 +389,13 @@ func ruleSIB3(w *World) []Ob {
 			}
 			groups := byAtom(cs, "isRoot(n)")
 			var problems []string
+			// the row must be written as data: handed to a printf-style function as the *format*, every '%' in a
+			// node name or branch string is read as a verb
+			if strings.HasSuffix(f.Name(), "f") && f.Pkg != nil && f.Pkg.Pkg.Path() == "fmt" && len(c.Common().Args) >= 2 && c.Common().Args[1] == rowv {
+				if _, isConst := rowv.(*ssa.Const); !isConst {
+					problems = append(problems, "the row is passed to "+f.Name()+" as its format string: a '%' in a node name or branch string is interpreted as a formatting verb")
+				}
+			}
 			if len(groups["true"]) != 1 || groups["true"][0] != wantRootLine {
 				problems = append(problems, fmt.Sprintf("root line is %v, expected %s", groups["true"], wantRootLine))
 			}
